@@ -28,6 +28,9 @@ class Shim:
             if k.startswith("linalg."):
                 setattr(la, k[7:], v)
         self.linalg = la
+        for k, v in self._over.items():
+            if "." not in k:
+                setattr(self, k, v)        # an override also replaces the shim's own version of that function
 
     def __getattr__(self, k):
         if k in self._over:
